@@ -1183,4 +1183,74 @@ example : (serveStack (reqOf "OPTIONS".toList [("Origin".toList, oEvil), ("Sec-F
     (serveStack (reqOf "OPTIONS".toList [("Access-Control-Request-Method".toList, "GET".toList), ("Origin".toList, oGood)])
       [strictLayer]).core = ⟨204, false, some oGood, true, varyOrigin :: varyPreflight⟩ := by decide
 
+
+/-! ## round 7: the state of the shared response when the first instance is entered -/
+
+/-- **C11_entry_same_decision** — whatever an earlier middleware did to the response (CORS-looking
+    headers already there, response already started with some status), who reaches the handler is
+    decided exactly as on an untouched response: by every instance on its own. -/
+theorem C11_entry_same_decision (en : Entry) (fr : FReq) (ls : List Layer) :
+    (serveEntry en fr ls).core.ran = (serveStack fr ls).core.ran := by
+  unfold serveEntry
+  cases en.committed <;> simp [mergeObs, noHeaders]
+
+/-- hence: a request from an Origin that one unskipped allow-list instance does not allow never
+    reaches the handler, also when the response was already started or already carries an
+    `Access-Control-Allow-Origin` -/
+theorem C11_entry_disallowed_blocked (en : Entry) (fr : FReq) (ls : List Layer) (l : Layer) (hl : l ∈ ls)
+    (hs : l.skip = false) (hf : l.cfg.func = none) (hv : ValidOrigin fr.origin)
+    (hp : ∀ p ∈ effOrigins l.cfg.core, PatScheme p) (hna : ¬ Allowed (effOrigins l.cfg.core) fr.origin) :
+    (serveEntry en fr ls).core.ran = false := by
+  rw [C11_entry_same_decision]
+  exact C11_stack_disallowed_blocked fr ls l hl hs hf hv hp hna
+
+/-- and an OPTIONS request never runs the handler past an unskipped instance -/
+theorem C11_entry_options_never_runs (en : Entry) (headers : List (Str × Str)) (ls : List Layer) (l : Layer)
+    (hl : l ∈ ls) (hs : l.skip = false) :
+    (serveEntry en (reqOf "OPTIONS".toList headers) ls).core.ran = false := by
+  rw [C11_entry_same_decision]
+  exact C11_req_options_never_runs headers ls l hl hs
+
+/-- an untouched response: `serveEntry` is `serveStack` -/
+theorem serveEntry_plain (fr : FReq) (ls : List Layer) :
+    serveEntry ⟨none, none, false, []⟩ fr ls = serveStack fr ls := by
+  unfold serveEntry
+  simp only [mergeObs, entryObs, noHeaders]
+  cases h : serveStack fr ls with
+  | mk core al am ah ae ma =>
+    cases core with
+    | mk st rn ao ac vy =>
+      simp
+
+/-- **C11_entry_grants** — an `Access-Control-Allow-Origin` the client sees was either already in
+    the response when the middleware was entered, or set by one of the instances for this request;
+    once the response is started, nothing the instances set is seen at all. -/
+theorem C11_entry_grants (en : Entry) (fr : FReq) (ls : List Layer) (v : Str)
+    (h : (serveEntry en fr ls).core.acao = some v) :
+    en.acao = some v ∨ (en.committed = none ∧ ∃ l ∈ ls, (l.run fr).core.acao = some v) := by
+  unfold serveEntry at h
+  cases hc : en.committed with
+  | some st => rw [hc] at h; left; simpa [noHeaders] using h
+  | none =>
+    rw [hc] at h
+    simp only [mergeObs, entryObs, noHeaders] at h
+    cases hi : (serveStack fr ls).core.acao with
+    | some w =>
+      rw [hi] at h
+      have : w = v := by simpa using h
+      subst this
+      exact Or.inr ⟨rfl, (C11_stack_grants_from_instance fr ls).1 w hi⟩
+    | none =>
+      rw [hi] at h
+      left; simpa using h
+
+-- a response already started with 202: the disallowed origin is still refused (handler not run), the client keeps
+-- seeing 202 and the headers sent with it; on an untouched response the same request gets 401
+example : serveEntry ⟨some 202, some star, false, [varyOrigin]⟩ ⟨⟨false, [oEvil]⟩, false, [], []⟩ [strictLayer]
+      = noHeaders ⟨202, false, some star, false, [varyOrigin]⟩ none ∧
+    (serveEntry ⟨none, some star, false, []⟩ ⟨⟨false, [oEvil]⟩, false, [], []⟩ [strictLayer]).core
+      = ⟨401, false, some star, false, [varyOrigin]⟩ ∧
+    (serveEntry ⟨none, some star, false, []⟩ ⟨⟨false, [oGood]⟩, false, [], []⟩ [strictLayer]).core
+      = ⟨200, true, some oGood, true, [varyOrigin]⟩ := by decide
+
 end C11
